@@ -34,6 +34,21 @@ func c13New(kind string) ap.CollectionInterface {
 
 // pool of items with pairwise non-equivalent ids in mixed shapes
 func c13Pool(kind string, variant string) []ap.Item {
+	if variant == "near" {
+		// distinct identities that are as close to each other as identities get: one host and path, the query absent, a subset,
+		// another value, a repeated key; another port; a longer path
+		ids := []string{"https://example.com/outbox", "https://example.com/outbox?page=1", "https://example.com/outbox?page=1&page=2", "https://example.com/outbox?page=2",
+			"https://example.com:8443/outbox", "https://example.com/outbox/1"}
+		if kind == "IRIs" {
+			var out []ap.Item
+			for _, id := range ids {
+				out = append(out, ap.IRI(id))
+			}
+			return out
+		}
+		return []ap.Item{ap.IRI(ids[0]), ap.IRI(ids[1]), &ap.Object{ID: ap.IRI(ids[2]), Type: ap.ArticleType}, &ap.Object{ID: ap.IRI(ids[3]), Type: ap.NoteType},
+			&ap.Actor{ID: ap.IRI(ids[4]), Type: ap.ServiceType}, ap.IRI(ids[5])}
+	}
 	if kind == "IRIs" {
 		var out []ap.Item
 		for i := 0; i < 6; i++ {
@@ -72,6 +87,9 @@ func c13KindVariants() [][2]string {
 		if k != "IRIs" {
 			out = append(out, [2]string{k, "val"})
 		}
+	}
+	for _, k := range c13Containers {
+		out = append(out, [2]string{k, "near"})
 	}
 	return out
 }
@@ -205,7 +223,7 @@ func c13NonTrivial(hist []c13Op) bool {
 func TestC13(t *testing.T) {
 	r := ev.Open(t, "C13")
 	defer r.Close(t)
-	r.Rule("histories over a pool of items with pairwise non-equivalent ids in mixed shapes (IRI, Object, Actor, Activity; held by pointer, and in the /val variant by value): every history of Append(1 or 2 items)/Remove/Contains " +
+	r.Rule("histories over a pool of items with pairwise non-equivalent ids in mixed shapes (IRI, Object, Actor, Activity; held by pointer, in the /val variant by value, and in the /near variant with ids that differ only in their query, port or last path segment): every history of Append(1 or 2 items)/Remove/Contains " +
 		"up to the length bound over a 3-item pool for each of the 6 containers (Remove through ToItemCollection(container); not offered for IRIs whose item-list view is a copy), then random " +
 		"histories over a 6-item pool; after every step Count(), Collection() order and Contains() of every pool item are compared with a reference ordered set. " +
 		"non-trivial = a Remove after >= 2 appended items or a re-Append of an item seen before; distinct by container + op sequence")
@@ -217,7 +235,7 @@ func TestC13(t *testing.T) {
 			kind, variant := kv[0], kv[1]
 			pool := c13Pool(kind, variant)
 			maxLen := maxLen
-			if variant == "val" && !r.Thorough() {
+			if variant != "" && !r.Thorough() {
 				maxLen--
 			}
 			tag := kind
